@@ -232,6 +232,11 @@ func main() {
 			var visit func(list []ast.Stmt)
 			visit = func(list []ast.Stmt) {
 				for _, st := range list {
+					if _, isDefer := st.(*ast.DeferStmt); isDefer {
+						// never separate `mu.Lock()` from its `defer mu.Unlock()`: a goroutine
+						// unwound at a yield in between would leave the mutex locked
+						continue
+					}
 					line := fset.Position(st.Pos()).Line
 					site := fmt.Sprintf("%s:%d", filepath.Base(path), line)
 					sp = append(sp, splice{off(st.Pos()), off(st.Pos()), fmt.Sprintf("simsync.Yield(%q); ", site), 1})
